@@ -421,6 +421,13 @@ def playback_native(twin_dir, flavour, package, harness, tests, log_path):
     cmd += ["--", "kani_concrete_playback_" + harness["name"]]
     with Lock(f"target-playback-{flavour}", 1) as lk:
         env["CARGO_TARGET_DIR"] = lk.dir
+        # every twin lives at a fresh path, so native test binaries (~0.5 GB each) pile up: start over when large
+        try:
+            du = subprocess.run(["du", "-sk", lk.dir], stdout=subprocess.PIPE, text=True).stdout.split()
+            if du and int(du[0]) > 10 * 1024 * 1024:
+                shutil.rmtree(lk.dir, ignore_errors=True)
+        except Exception:
+            pass
         # build first (a filter that matches nothing), so that the time limit below applies to the test only
         subprocess.run(cmd[:-1] + ["kani_concrete_playback_build_only_no_such_test"], cwd=twin_dir, env=env,
                        stdout=subprocess.PIPE, stderr=subprocess.STDOUT, text=True, timeout=3600)
